@@ -54,12 +54,12 @@ func init() {
 }
 
 type policyCase struct {
-	tok, verify                          bool
-	mode                                 string
-	hosts                                []string // the slice the code under test is given (shared per configuration)
-	hostsConf                            []string // the list as configured (recorded in the case line); nil: hosts
-	tokhost, tokip, user, clientip       string
-	items                                []item
+	tok, verify                    bool
+	mode                           string
+	hosts                          []string // the slice the code under test is given (shared per configuration)
+	hostsConf                      []string // the list as configured (recorded in the case line); nil: hosts
+	tokhost, tokip, user, clientip string
+	items                          []item
 }
 
 var securityMu sync.Mutex // security.* are package globals
@@ -153,7 +153,7 @@ func streamC03(env *runEnv) {
 		{ph + ":" + strconv.Itoa(p0.port), ph + ph},
 		{},
 		{"127.0.0.2:" + strconv.Itoa(p0.port)}, // allowed, but nothing listens there (the listeners are on 127.0.0.1)
-		{"host-a.invalid:3389"}, // a name with letters: comparisons are by exact string, not by case folding
+		{"host-a.invalid:3389"},                // a name with letters: comparisons are by exact string, not by case folding
 	}
 	users := []string{"", "1", "2", "bob", "127.0.0.1", "1:" + strconv.Itoa(p0.port) + "\x00"}
 	modes := []string{"roundrobin", "unsigned", "signed", "any", "", "Any", "roundrobin "}
@@ -171,28 +171,28 @@ func streamC03(env *runEnv) {
 					addRaw := func(port, nameLen int, name []byte) { reqs = append(reqs, channelCreateBodyRaw(port, nameLen, name)) }
 					add("127.0.0.1", p0.port)
 					add("127.0.0.1", p1.port)
-					add("127.0.0.1", p0.port+1)          // other port
-					add("127.0.0.1", 0)                   // removed port
-					add("127.0.0", p0.port)               // prefix
-					add("27.0.0.1", p0.port)              // suffix
-					add("127.0.0.11", p0.port)            // superstring
-					add("127.0.0.2", p0.port)             // another user's substituted entry
-					add("::1", p2.port)                   // IPv6, bracketed by JoinHostPort
-					add("[::1]", p2.port)                 // already bracketed
-					add("127.0.0.1\x00", p0.port)         // doubled NUL
-					add("127.0\x00.0.1", p0.port)         // embedded NUL
-					add(user, p0.port)                    // bare user name
+					add("127.0.0.1", p0.port+1)   // other port
+					add("127.0.0.1", 0)           // removed port
+					add("127.0.0", p0.port)       // prefix
+					add("27.0.0.1", p0.port)      // suffix
+					add("127.0.0.11", p0.port)    // superstring
+					add("127.0.0.2", p0.port)     // another user's substituted entry
+					add("::1", p2.port)           // IPv6, bracketed by JoinHostPort
+					add("[::1]", p2.port)         // already bracketed
+					add("127.0.0.1\x00", p0.port) // doubled NUL
+					add("127.0\x00.0.1", p0.port) // embedded NUL
+					add(user, p0.port)            // bare user name
 					// an allowed but unreachable first name with alternate names that are live but not allowed
 					reqs = append(reqs, channelCreateWithAlts("127.0.0.2", p0.port, "127.0.0.1"))
 					reqs = append(reqs, channelCreateWithAlts("127.0.0.2", p0.port, "127.0.0.3", "127.0.0.1", "localhost"))
 					reqs = append(reqs, channelCreateWithAlts("127.0.0.1", p0.port, "127.0.0.1"))
-					add("host-a.invalid", 3389)           // the lettered entry itself
-					add("HOST-A.INVALID", 3389)           // ASCII case variant
-					add("ho\u017ft-a.invalid", 3389)      // U+017F folds to 's' under Unicode case folding
-					add("ho\u0073t-a.in\u212Aalid", 3389) // unrelated fold (Kelvin sign)
-					addRaw(p0.port, 21, utf16le("127.0.0.1\x00")[:19])                                    // odd-length UTF-16
-					addRaw(p0.port, 40, utf16le("127.0.0.1\x00"))                                         // over-long length field
-					addRaw(p0.port, 4, utf16le("127.0.0.1\x00"))                                          // short length field
+					add("host-a.invalid", 3389)                                                          // the lettered entry itself
+					add("HOST-A.INVALID", 3389)                                                          // ASCII case variant
+					add("ho\u017ft-a.invalid", 3389)                                                     // U+017F folds to 's' under Unicode case folding
+					add("ho\u0073t-a.in\u212Aalid", 3389)                                                // unrelated fold (Kelvin sign)
+					addRaw(p0.port, 21, utf16le("127.0.0.1\x00")[:19])                                   // odd-length UTF-16
+					addRaw(p0.port, 40, utf16le("127.0.0.1\x00"))                                        // over-long length field
+					addRaw(p0.port, 4, utf16le("127.0.0.1\x00"))                                         // short length field
 					addRaw(p0.port, 24, cat(utf16le("127.0.0.1"), []byte{0x3d, 0xd8, 0x00, 0xde, 0, 0})) // surrogate pair appended
 					addRaw(p0.port, 22, cat(utf16le("127.0.0.1"), []byte{0x00, 0xd8, 0, 0}))             // lone surrogate
 					tokhosts := []string{p0.addr}
